@@ -145,10 +145,11 @@ def run_affinity(ctx: Ctx) -> RuleResult:
                             continue
                         checked += 1
                         ok = (af == pf)
-                        res.ob('%s %s' % (f.loc(n), f.qual), '%s(%s=%s): %s <- %s' % (cq.split(':')[1], pname, norm(arg), pf, af), ok)
+                        props = ['C06'] if (pf in AFTER_ADVANCE and af in AFTER_ADVANCE) else None
+                        res.ob('%s %s' % (f.loc(n), f.qual), '%s(%s=%s): %s <- %s' % (cq.split(':')[1], pname, norm(arg), pf, af), ok, props=props)
                         if not ok:
                             res.finding(f, n, 'argument %s of family %s is passed as %s (%s) of %s' % (
-                                norm(arg), af, pname, pf, cq.split(':')[1]), construct='%s=%s' % (pname, norm(arg)))
+                                norm(arg), af, pname, pf, cq.split(':')[1]), construct='%s=%s' % (pname, norm(arg)), props=props)
                     if checked:
                         ctor_sites += 1
             # Token.__reduce__: (cls, (args...))
@@ -184,9 +185,10 @@ def run_affinity(ctx: Ctx) -> RuleResult:
                     # running counter after the advance (ordering is checked separately)
                     src = n.value.value if isinstance(n.value, ast.Attribute) else None
                     ok = src is not None and ('C:' + LINECTR) in ty.expr(f, src, env)
-                res.ob('%s %s' % (f.loc(n), f.qual), '%s (%s) <- %s (%s)' % (norm(t), tf, norm(n.value), af), ok)
+                props = ['C06'] if tf in AFTER_ADVANCE else None
+                res.ob('%s %s' % (f.loc(n), f.qual), '%s (%s) <- %s (%s)' % (norm(t), tf, norm(n.value), af), ok, props=props)
                 if not ok:
-                    res.finding(f, n, 'coordinate of family %s assigned to %s (%s)' % (af, norm(t), tf))
+                    res.finding(f, n, 'coordinate of family %s assigned to %s (%s)' % (af, norm(t), tf), props=props)
     res.require_instances(ctor_sites, 9, 'coordinate-carrying constructor call sites')
     res.require_instances(assign_sites, 12, 'coordinate attribute assignments')
     res.tables['counts'] = {'constructor_sites': ctor_sites, 'assignments': assign_sites}
@@ -240,9 +242,9 @@ def _ordering(ctx: Ctx, res: RuleResult):
             nid = g.node_of(n)
             ok = g.must_pass(head, [feed_node], [nid])
             ends += 1
-            res.ob(f.loc(n), '%s assigned after the counter advances' % norm(n.targets[0]), ok)
+            res.ob(f.loc(n), '%s assigned after the counter advances' % norm(n.targets[0]), ok, props=['C06'])
             if not ok:
-                res.finding(f, n, 'end coordinate taken from the line counter before it has been advanced over the token')
+                res.finding(f, n, 'end coordinate taken from the line counter before it has been advanced over the token', props=['C06'])
     if starts < 1 or ends < 3:
         res.ob(f.loc(), 'token start read (>=1) and three end fields assigned from the counter', False)
         res.finding(f, f.node, 'next_token no longer fills the token end coordinates from the line counter '
@@ -457,9 +459,9 @@ def _xearley_coords(ctx: Ctx, res: RuleResult):
             seen.add(a)
             form = linear(n.value)
             ok = form == want[a]
-            res.ob(scan.loc(n), 'token.%s == [%s] (coordinate after the last character of the token)' % (a, lin_str(want[a])), ok)
+            res.ob(scan.loc(n), 'token.%s == [%s] (coordinate after the last character of the token)' % (a, lin_str(want[a])), ok, props=['C06'])
             if not ok:
-                res.finding(scan, n, 'token.%s is [%s], expected [%s]' % (a, lin_str(form), lin_str(want[a])))
+                res.finding(scan, n, 'token.%s is [%s], expected [%s]' % (a, lin_str(form), lin_str(want[a])), props=['C06'])
     okall = seen == set(want)
     res.ob(scan.loc(), 'all three end fields of a dynamic token are assigned', okall)
     if not okall:
@@ -638,9 +640,10 @@ def run_token_none_test(ctx: Ctx) -> RuleResult:
             ts = ty.expr(f, n, env)
             if tok in ts and 'b:none' in ts:
                 sites += 1
-                res.ob('%s %s' % (f.loc(n), f.qual), '%s (Optional[Token]) tested by truthiness' % norm(n), False)
+                props = ['C08', 'C18'] if f.module.name == 'lark.indenter' else ['C08']
+                res.ob('%s %s' % (f.loc(n), f.qual), '%s (Optional[Token]) tested by truthiness' % norm(n), False, props=props)
                 res.finding(f, enclosing_stmt(n), 'Optional[Token] %s is tested by truthiness: an empty-valued token '
-                            '(e.g. a final _DEDENT) is treated as "no token"' % norm(n), construct='truthiness:' + norm(n))
+                            '(e.g. a final _DEDENT) is treated as "no token"' % norm(n), construct='truthiness:' + norm(n), props=props)
     res.require_instances(sites, 4, 'None-tests on Optional[Token] values')
     return res
 
@@ -670,12 +673,24 @@ def run_meta_triples(ctx: Ctx) -> RuleResult:
     END_F = {'end_line', 'end_column', 'end_pos'}
     n_triples = 0
     covered = {'start': set(), 'end': set(), 'cstart': set(), 'cend': set()}
+    META_FIELDS = START_F | END_F | {'container_' + x for x in START_F | END_F}
+    res_names = {norm(n.targets[0]) for n in f.body_nodes() if isinstance(n, ast.Assign) and len(n.targets) == 1
+                 and isinstance(n.targets[0], ast.Name) and isinstance(n.value, ast.Attribute) and n.value.attr == 'meta'}
     for n in f.body_nodes():
         if not (isinstance(n, ast.Assign) and len(n.targets) == 1 and isinstance(n.targets[0], ast.Attribute)):
             continue
         t = n.targets[0]
         v = n.value
         if not (isinstance(v, ast.Call) and isinstance(v.func, ast.Name) and v.func.id == 'getattr' and len(v.args) == 3):
+            if t.attr in META_FIELDS and norm(t.value) in res_names:
+                # a coordinate of the result's meta assigned without the container fallback
+                n_triples += 1
+                res.ob(f.loc(n), '%s is copied as getattr(<child meta>, container_..., <child meta>....)' % norm(t), False)
+                res.finding(f, n, 'meta field %s is assigned %s: the container_* fallback is missing, so inlined (?rule / _rule) '
+                            'children report their own span instead of the span they occupy' % (t.attr, norm(v)))
+                base0 = t.attr[len('container_'):] if t.attr.startswith('container_') else t.attr
+                grp0 = ('c' if t.attr.startswith('container_') else '') + ('start' if base0 in START_F else 'end')
+                covered[grp0].add(base0)
             continue
         n_triples += 1
         A = t.attr
